@@ -15,7 +15,8 @@ LEVEL_TEXT = ("Stream.tla has one action per critical section of Stream/SubStrea
               "the coarser granularity a harness can drive; TLC-generated behaviours are replayed step by step on the real objects "
               "(callbacks blocked on gates, synctest bubble) and TLC re-evaluates the formulas on what was observed; a free-running "
               "-race stress is judged by TLC on the stamped history")
-LEVEL_NOTE = ("bounded: 2 formats, 2 readers, 2 publishers, queue sizes {1,2,4}, <= 3 writes per format; Write is atomic in the model "
+LEVEL_NOTE = ("bounded: 2 formats, 2 readers, 2 publishers, queue sizes {1,2,4}, <= 3 writes per format; units with and without payload "
+              "(RTP publisher whose frames span several packets) are judged one by one; Write is atomic in the model "
               "(one writer goroutine per format in the stress); replay covers the interleavings reachable without hooks "
               "(unregister+close is one step there); the stress formulas only use what the stamps make certain")
 
@@ -29,6 +30,9 @@ CONSTANTS
   MaxWrites = %(mw)d
   MaxStale = %(ms)d
   Eager = %(eager)s
+  Kinds = {%(kinds)s}
+  FragFormats = {"f1"}
+  DevCountFramesOnly = %(dev)s
 INVARIANTS TypeOK PropAccounted PropExact PropAllReceived PropStoppedQuiet
 PROPERTIES StepOnlyOrder StepSkipOnlyWhenFull StepNoCallbackAfterEnd
 CHECK_DEADLOCK FALSE
@@ -44,6 +48,9 @@ CONSTANTS
   MaxWrites = %(mw)d
   MaxStale = %(ms)d
   Eager = TRUE
+  Kinds = {%(kinds)s}
+  FragFormats = {"f1"}
+  DevCountFramesOnly = FALSE
 INVARIANT EmitRuns
 CHECK_DEADLOCK FALSE
 """
@@ -58,6 +65,9 @@ CONSTANTS
   MaxWrites = 2
   MaxStale = 1
   Eager = TRUE
+  Kinds = {"frame"}
+  FragFormats = {"f1"}
+  DevCountFramesOnly = FALSE
 VIEW ImplView
 CHECK_DEADLOCK FALSE
 """
@@ -83,7 +93,7 @@ def _compact(acts):
     for a in acts:
         n = a["a"]
         if n == "Write":
-            out.append("W%d%s" % (a["ss"], a["f"]))
+            out.append("W%d%s%s" % (a["ss"], a["f"], "~" if a.get("k") == "frag" else ""))   # ~ : unit without payload
         elif n == "AddReader":
             out.append("Add(%s:%s)" % (a["r"], "+".join(a["S"])))
         elif n == "Switch":
@@ -97,10 +107,10 @@ def _act_from_label(lab):
     name, args = walk.parse_label(lab)
     if name == "Do":          # the actions of Stream.tla are all instances of Do(record)
         x = args[0]
-        return {"a": x["a"], "ss": int(x["ss"]), "f": x["f"], "r": x["r"], "S": sorted(x["S"])}
-    a = {"a": name, "ss": 0, "f": "", "r": "", "S": []}
+        return {"a": x["a"], "ss": int(x["ss"]), "f": x["f"], "r": x["r"], "S": sorted(x["S"]), "k": x["k"]}
+    a = {"a": name, "ss": 0, "f": "", "r": "", "S": [], "k": ""}
     if name == "Write":
-        a["ss"], a["f"] = int(args[0]), args[1]
+        a["ss"], a["f"], a["k"] = int(args[0]), args[1], args[2]
     elif name == "AddReader":
         a["r"], a["S"] = args[0], sorted(args[1])
     elif name == "Switch":
@@ -147,26 +157,32 @@ def run(ctx):
     o1 = ctx.path("replay.ndjson")
     o2 = ctx.path("stress.ndjson")
     vf.overlay(ctx)
-    # ---- MC: layer 1 |= layer 2 on the bounded model.  (readers, nss, qs, writes/format, stale, eager)
+    both, frame = '"frame","frag"', '"frame"'
+    # ---- MC: layer 1 |= layer 2 on the bounded model.  (readers, nss, qs, writes/format, stale, eager, unit kinds)
     mcs = ctx.pick(
-        [('"r1"', 2, "1,2,4", 3, 2, "FALSE"),      # one reader, lock granularity, all queue sizes
-         (two, 1, "1", 2, 0, "FALSE")],             # two readers, lock granularity
-        [('"r1"', 2, "1,2,4", 4, 2, "FALSE"),
-         (two, 2, "1", 3, 1, "FALSE"),
-         (two, 2, "2", 2, 1, "FALSE"),
-         (two, 2, "1,2,4", 3, 1, "TRUE")])
+        [('"r1"', 2, "1,2,4", 3, 2, "FALSE", both),    # one reader, lock granularity, all queue sizes, units with/without payload
+         (two, 1, "1", 2, 0, "FALSE", frame)],          # two readers, lock granularity
+        [('"r1"', 2, "1,2,4", 4, 2, "FALSE", both),
+         (two, 2, "1", 3, 1, "FALSE", frame),
+         (two, 2, "2", 2, 1, "FALSE", frame),
+         (two, 1, "1", 2, 0, "FALSE", both),
+         (two, 2, "1,2,4", 3, 1, "TRUE", frame)])
     # ---- GEN: behaviours of the Eager granularity, by TLC simulation (and, thorough, an edge cover of the state graph)
-    gens = ctx.pick([(2, "1,2", 3, 1, 260), (2, "1,4", 5, 2, 140)],
-                    [(2, "1,2,4", 3, 2, 2500), (2, "1,2", 5, 2, 1500), (2, "4,8", 9, 2, 1000)])
+    # (nss, qs, writes/format, stale, behaviours, unit kinds); with both kinds the replay uses a publisher that writes
+    # RTP packets (UseRTPPackets) and "frag" = a packet that does not complete a frame (unit without payload)
+    gens = ctx.pick([(2, "1,2", 3, 1, 260, frame), (2, "1,4", 5, 2, 140, frame), (1, "1,2", 4, 0, 160, both)],
+                    [(2, "1,2,4", 3, 2, 2500, frame), (2, "1,2", 5, 2, 1500, frame), (2, "4,8", 9, 2, 1000, frame),
+                     (1, "1,2,4", 5, 0, 1500, both)])
     jobs = []
     mcnames = []
-    for i, (rd, nss, qs, mw, ms, eager) in enumerate(mcs):
-        name = _cfg(ctx, "Stream_mc_%d.cfg" % i, MC_CFG % dict(readers=rd, nss=nss, qs=qs, mw=mw, ms=ms, eager=eager))
+    for i, (rd, nss, qs, mw, ms, eager, kinds) in enumerate(mcs):
+        name = _cfg(ctx, "Stream_mc_%d.cfg" % i, MC_CFG % dict(readers=rd, nss=nss, qs=qs, mw=mw, ms=ms, eager=eager,
+                                                                 kinds=kinds, dev="FALSE"))
         mcnames.append(name)
         jobs.append(lambda name=name: vf.tlc(ctx, "Stream", name, workers=ctx.pick(6, 8), timeout=1500,
                                              java_opts=["-Xmx8g"]))
-    for i, (nss, qs, mw, ms, num) in enumerate(gens):
-        name = _cfg(ctx, "StreamGen_%d.cfg" % i, GEN_CFG % dict(nss=nss, qs=qs, mw=mw, ms=ms))
+    for i, (nss, qs, mw, ms, num, kinds) in enumerate(gens):
+        name = _cfg(ctx, "StreamGen_%d.cfg" % i, GEN_CFG % dict(nss=nss, qs=qs, mw=mw, ms=ms, kinds=kinds))
         jobs.append(lambda name=name, num=num, i=i: vf.tlc(
             ctx, "StreamGen", name, workers=1, timeout=900, simulate="num=%d" % num, depth=200,
             extra=["-seed", str(1000 * int(ctx.seed) + i)]))
@@ -197,11 +213,19 @@ def run(ctx):
     res = _par(jobs)
     for name, r in zip(mcnames, res[:len(mcs)]):
         _mc_account(ctx, "Stream", name, r)
+    if ctx.thorough:
+        # sanity of the model: with the named deviation DevCountFramesOnly the statement must be violated
+        name = _cfg(ctx, "Stream_dev.cfg", MC_CFG % dict(readers='"r1"', nss=1, qs="1", mw=3, ms=0, eager="FALSE",
+                                                         kinds=both, dev="TRUE"))
+        r = vf.tlc(ctx, "Stream", name, workers=2, timeout=600, allow_violation=True)
+        if not r.violated:
+            raise vf.Infra("Stream.tla with DevCountFramesOnly=TRUE satisfies the statement: the model cannot see uncounted drops")
+        ctx.set("deviation_DevCountFramesOnly_violates", r.violated)
     ctx.set("exhaustive", True)
     cases = []
-    for r in res[len(mcs):len(mcs) + len(gens)]:
+    for g, r in zip(gens, res[len(mcs):len(mcs) + len(gens)]):
         for x in r.tagged("RUN"):
-            cases.append({"run": len(cases), "q": x["q"], "src": "simulate", "acts": x["acts"]})
+            cases.append({"run": len(cases), "q": x["q"], "src": "simulate", "rtp": g[5] == both, "acts": x["acts"]})
     nsim = len(cases)
     if nsim < 50:
         raise vf.Infra("generator produced only %d behaviours" % nsim)
@@ -210,7 +234,7 @@ def run(ctx):
         for ws, c, t in res[len(mcs) + len(gens) + 1:]:
             covered, total = covered + c, total + t
             for q, w in ws:
-                cases.append({"run": len(cases), "q": q, "src": "edgecover", "acts": [_act_from_label(lab) for lab, _ in w]})
+                cases.append({"run": len(cases), "q": q, "src": "edgecover", "rtp": False, "acts": [_act_from_label(lab) for lab, _ in w]})
         ctx.set("graph_edges_covered", covered)
         ctx.set("graph_edges_total", total)
     cf = vf.write_ndjson(ctx.path("cases.ndjson"), cases)
@@ -236,10 +260,11 @@ def run(ctx):
         for bad in tv.tagged("BAD"):
             rec = part[bad["l"] - 1]
             acts = _compact(rec["steps"][:-1])
-            ctx.violation({"monitor": bad["monitor"], "mode": "replay", "q": rec["q"], "aa": rec["aa"], "acts": acts},
-                          "%s is false on the real Stream (WriteQueueSize=%d, alwaysAvailable=%s) for the schedule [%s]; "
+            ctx.violation({"monitor": bad["monitor"], "mode": "replay", "q": rec["q"], "aa": rec["aa"], "rtp": rec["rtp"], "acts": acts},
+                          "%s is false on the real Stream (WriteQueueSize=%d, alwaysAvailable=%s, RTP publisher=%s) "
+                          "for the schedule [%s] (~ = unit without payload); "
                           "observed per step (callbacks begun, discard counters): %s"
-                          % (bad["monitor"], rec["q"], rec["aa"], acts,
+                          % (bad["monitor"], rec["q"], rec["aa"], rec["rtp"], acts,
                              [[(c["r"], c["f"], c["pay"][4:6]) for c in s["cbs"]] + [s["disc"]] for s in rec["steps"]]))
         drift[0] += len(tv.tagged("DRIFT"))
 
@@ -252,7 +277,7 @@ def run(ctx):
         for bad in tv.tagged("BAD"):
             rec = part[bad["l"] - 1]
             lf = [x for x in rec["lives"] if x["id"] == bad["life"]][0]
-            ctx.violation({"monitor": bad["monitor"], "mode": "stress", "q": rec["q"], "aa": rec["aa"],
+            ctx.violation({"monitor": bad["monitor"], "mode": "stress", "q": rec["q"], "aa": rec["aa"], "rtp": rec["rtp"],
                            "foreign": rec["foreign"]},
                           "%s is false in stress round %d (WriteQueueSize=%d, alwaysAvailable=%s) for reader life %d: subs=%s "
                           "add=[%d,%d] remove=[%d,%d] discarded=%d callbacks=%d failed=%s first callbacks %s"
@@ -282,6 +307,9 @@ def run(ctx):
     ctx.set("replayed_from_simulation", nsim)
     ctx.set("replayed_steps", sum(len(r["steps"]) for r in recs))
     ctx.set("replay_callbacks_observed", sum(len(s["cbs"]) for r in recs for s in r["steps"]))
+    ctx.set("replayed_with_rtp_publisher", sum(1 for r in recs if r["rtp"]))
+    ctx.set("replay_payloadless_units_written", sum(1 for r in recs for s in r["steps"] if s["a"] == "Write" and s["k"] == "frag"
+                                                   and not s["skipped"]))
     ctx.set("replay_discards_observed", sum(max(0, v) for r in recs for v in r["steps"][-1]["disc"].values()))
     ctx.set("drift_events", drift)
     ctx.set("stress_rounds", 0 if stress_failure else len(srecs))
